@@ -2,6 +2,7 @@ package formatter
 
 import (
 	"fmt"
+	"regexp"
 	"strings"
 	"unicode"
 
@@ -489,6 +490,8 @@ func (f *Formatter) renderInlineChildren(n *html.Node) string {
 // escapeText escapes HTML-significant characters (&, <, >) in text content.
 // Content inside {{ }} template expressions is preserved as-is to avoid
 // breaking template syntax like {{ a < b }}.
+var charRefInMustache = regexp.MustCompile(`&(#?[0-9A-Za-z]+;)`)
+
 func escapeText(s string) string {
 	var b strings.Builder
 	b.Grow(len(s))
@@ -497,7 +500,9 @@ func escapeText(s string) string {
 		if i+1 < len(s) && s[i] == '{' && s[i+1] == '{' {
 			end := strings.Index(s[i+2:], "}}")
 			if end != -1 {
-				b.WriteString(s[i : i+2+end+2])
+				// the expression is kept as written, except that a "&" which would start a
+				// character reference is escaped (or the reference would be decoded next time)
+				b.WriteString(charRefInMustache.ReplaceAllString(s[i:i+2+end+2], "&amp;$1"))
 				i += 2 + end + 2
 				continue
 			}
